@@ -52,6 +52,13 @@ def comb (isInter : Bool) (x y : Except PyErr Operand) : Except PyErr Operand :=
 def fmtCells (cs : List Cell) : String := ",".intercalate (cs.map fun c => s!"{c.col}.{c.row}")
 def fmtGrid (g : List (List Cell)) : String := ";".intercalate (g.map fmtCells)
 
+/-- every public attribute of an address object, its enumeration included -/
+def desc (a : Addr) : String :=
+  let u := if a.isUnbounded then "1" else "0"
+  let res := if a.isRange then (if a.isUnbounded then PyErr.assertion.enc else fmtGrid a.rect.rows)
+    else fmtGrid [[⟨a.rect.sheet, a.rect.c1, a.rect.r1⟩]]
+  s!"{fmtAddr a} P {encText a.quotedAddress} {encText a.absAddress} {encText a.coordinate} {encText a.absCoordinate} U {u} RES {res} SH 1"
+
 def handle : List String → String
   | ["c11", "parse", mode, t, sh, an] =>
     match txt? t, txt? sh, anchor? an with
@@ -126,6 +133,30 @@ def handle : List String → String
       | .ok (.code _) => PyErr.attribute.enc
       | .error e => e.enc
     | none => "!bad-arg"
+  | ["c11", "hist", t, sh2, ri, ci, other] =>
+    match txt? t, txt? sh2, ri.toInt?, ci.toInt?, txt? other with
+    | some t, some sh2, some ri, some ci, some other =>
+      match create t [] none with
+      | .ok (.addr a) =>
+        let d (x : Except PyErr Addr) : String := match x with
+          | .ok y => s!"D {desc y} F {desc y} EQ 1"
+          | .error e => e.enc
+        let dOp (x : Except PyErr Operand) : String := match x with
+          | .ok (.addr y) => s!"D {desc y} F {desc y} EQ 1"
+          | .ok (.err c) => "E " ++ encText c
+          | .error e => e.enc
+        let r2 := resheet a sh2
+        let c0 : Cell := (⟨a.rect.sheet, a.rect.c1, a.rect.r1⟩ : Cell).offset ri ci
+        let routes : List String := [
+          d (.ok a), d r2, (if a.isRange then "NA" else d (.ok a)), (if a.isRange then "NA" else d r2), d r2,
+          d (mkCell c0.sheet c0.col c0.row),
+          dOp (comb true (.ok (.addr a)) (operandOf other)), dOp (comb false (.ok (.addr a)) (operandOf other)),
+          (match r2 with | .ok y => d (resheet y sh2) | .error e => e.enc),
+          (match r2 with | .ok y => dOp (comb false (.ok (.addr y)) (operandOf other)) | .error e => e.enc)]
+        " | ".intercalate routes
+      | .ok (.code _) => PyErr.attribute.enc
+      | .error e => e.enc
+    | _, _, _, _, _ => "!bad-arg"
   | ["c11", "contains", r, c] =>
     match txt? r, txt? c with
     | some r, some c =>
